@@ -386,7 +386,14 @@ func driveExec(t *testing.T, prop string, pf execProfile, nQuick, nThorough int,
 
 func TestDrive_C01(t *testing.T) {
 	driveExec(t, "C01", execProfile{name: "C01", kinds: allKinds, maxDepth: 5, extPct: 8, coopPct: 40, maxReqs: 5, hedgePct: 20}, 400, 12000,
-		"histories of 1-5 executions on shared policy instances; stacks of depth 0-5 over retry, breaker, rate limiter, bulkhead, timeout, fallback, cache (with repetition and shared instances); scripts of 1-6 function outcomes with durations; all eight entry points; occasional external cancellation. Observed per execution: returned result and error, end instant, the ordered log of every listener and of the function's entry and exit (with counters), breaker state/metrics and cache contents afterwards. Non-trivial = depth >= 2 and some layer changed the outcome or the number of invocations; distinct by (instances, requests).", nil)
+		"histories of 1-5 executions on shared policy instances; stacks of depth 0-5 over retry, breaker, rate limiter, bulkhead, timeout, fallback, cache (with repetition and shared instances); a hedge policy directly around the function in a fifth of the stacks; scripts of 1-6 function outcomes with durations; all eight entry points; occasional external cancellation. Observed per execution: returned result and error, end instant, the ordered log of every listener and of the function's entry and exit (with counters), breaker state/metrics and cache contents afterwards. Plus verdict-plumbing scenarios (verdict-sensitive policies directly around a policy that classifies a plain non-error result as a failure and hands it on). Non-trivial = depth >= 2 and some layer changed the outcome or the number of invocations; distinct by (instances, requests).",
+		func(w *CaseWriter, rng *Rng, add func(InstD, []ReqD, string)) {
+			n := 40
+			if envTier() == "thorough" {
+				n = 1500
+			}
+			flagScenarios(rng, n, add)
+		})
 }
 
 const execRule = "Observed per execution: returned result and error, end instant, the ordered log of every listener and of the function's entry and exit (with Attempts/Retries/Executions/LastResult/LastError), breaker state and metrics and cache contents afterwards; compared event by event with the model; the property's own checker is evaluated on the implementation's log. Distinct by (instances, requests)."
@@ -417,10 +424,70 @@ func TestDrive_C10(t *testing.T) {
 		"stacks of depth 1-5 containing at least one fallback (WithResult/WithError/func echoing LastResult/func wrapping LastError) with random handle conditions, around and inside retry, breaker, rate limiter, bulkhead, timeout and cache policies so that the inner outcome ranges over plain results, handled and unhandled errors, ExceededError, ErrOpen, ErrFull, rate-limit and timeout errors. Non-trivial = some layer changed the outcome. "+execRule, nil)
 }
 
+// verdict plumbing: an inner policy classifies a plain non-error result as a failure and hands it on (retry with
+// ReturnLastFailure, breaker / fallback with a result condition); verdict-sensitive policies sit directly around it
+// (cache, fallback, retry, breaker, timeout), and the same stack runs two or three times on the same instances.
+func flagScenarios(rng *Rng, n int, add func(InstD, []ReqD, string)) {
+	for i := 0; i < n; i++ {
+		g := &instGen{}
+		v := Pick(rng, []int64{0, 1, 7})
+		handleV := []CallD{{K: "Result", R: v}}
+		var inner PolD
+		switch rng.Intn(3) {
+		case 0:
+			inner = PolD{K: "Retry", Handle: handleV, MaxRetries: int64(rng.Intn(3)), ReturnLast: true, Delay: genDelay(rng)}
+		case 1:
+			inner = PolD{K: "Breaker", Inst: len(g.inst.Breakers)}
+			g.inst.Breakers = append(g.inst.Breakers, []BCallD{{K: "FailureThreshold", A: int64(2 + rng.Intn(3))}, {K: "Delay", A: 40960 + 128}, {K: "Handle", H: &handleV[0]}})
+		default:
+			inner = PolD{K: "Fallback", Handle: handleV, FBKind: "Echo", FBR: 0} // handled, replaced by the same plain result
+		}
+		var stack []PolD
+		for k := 1 + rng.Intn(2); k > 0; k-- {
+			pos := len(stack)
+			switch rng.Intn(5) {
+			case 0, 1:
+				p := PolD{K: "Cache", Inst: g.cache(rng), Key: Pick(rng, []int64{1, 2})}
+				if rng.Chance(25) {
+					p.CacheIf = []PredD{Pick(rng, []PredD{{K: "ResGe", Z: 1}, {K: "Always"}})}
+				}
+				stack = append(stack, p)
+			case 2:
+				stack = append(stack, PolD{K: "Fallback", Handle: Pick(rng, [][]CallD{nil, handleV}), FBKind: "Result", FBR: -9})
+			case 3:
+				stack = append(stack, PolD{K: "Retry", Handle: Pick(rng, [][]CallD{nil, handleV}), MaxRetries: 1, ReturnLast: rng.Bool()})
+			default:
+				stack = append(stack, genPolicy(rng, Pick(rng, []string{"Breaker", "Timeout"}), pos, g))
+			}
+		}
+		stack = append(stack, inner)
+		var reqs []ReqD
+		for q := 0; q < 2+rng.Intn(2); q++ {
+			rq := ReqD{Stack: stack, Gap: Pick(rng, []int64{0, 1024}), CtxKey: -1, Entry: Pick(rng, []string{"Get", "GetWithExecution", "GetAsync"})}
+			for k := 0; k < 1+rng.Intn(3); k++ {
+				o := OutD{R: v}
+				if rng.Chance(25) {
+					o = genOutcome(rng)
+				}
+				rq.Script = append(rq.Script, FnStepD{Out: o, Dur: genDur(rng)})
+			}
+			reqs = append(reqs, rq)
+		}
+		add(g.inst, reqs, "verdict-plumbing")
+	}
+}
+
 func TestDrive_C11(t *testing.T) {
 	pf := execProfile{name: "C11", kinds: []string{"Retry", "Retry", "Breaker", "Breaker", "Fallback", "Timeout", "Bulkhead", "Cache"}, hedgePct: 20, maxDepth: 3, mustHave: "Cache", extPct: 0, coopPct: 20, maxReqs: 6}
 	driveExec(t, "C11", pf, 450, 15000,
-		"histories of 1-6 executions on shared caches and policy instances; stacks containing a cache policy (configured key 0-3, CacheIf conditions, pre-populated stores) with stateful breakers/bulkheads/retries inside; context keys none / non-string / string (empty, equal, different). Non-trivial = a hit, a store or a handled failure occurred. "+execRule, nil)
+		"histories of 1-6 executions on shared caches and policy instances; stacks containing a cache policy (configured key 0-3, CacheIf conditions, pre-populated stores) with stateful breakers/bulkheads/retries inside; context keys none / non-string / string (empty, equal, different); plus verdict-plumbing scenarios (a cache / fallback / retry / breaker / timeout directly around a policy that classifies a plain non-error result as a failure and hands it on, run two or three times on the same instances). Non-trivial = a hit, a store or a handled failure occurred. "+execRule,
+		func(w *CaseWriter, rng *Rng, add func(InstD, []ReqD, string)) {
+			n := 60
+			if envTier() == "thorough" {
+				n = 2000
+			}
+			flagScenarios(rng, n, add)
+		})
 }
 
 func TestDrive_C16(t *testing.T) {
